@@ -131,6 +131,7 @@ INS_OPTIONS = [
     ("training_config.noise", [("noise", "constant")]),
     ("torch_dtype", ["float64"]),
     ("model", [("hole", None)]),
+    ("n_initial<min_samples", [("nimin", (30, 50))]),
 ]
 
 
@@ -138,7 +139,7 @@ def build(kind, name, value):
     """Translate one (option, value) into (kwargs, run_kwargs, model, invalid?, label)."""
     kw, rkw, model, invalid = {}, {}, None, False
     tag = None
-    if isinstance(value, tuple) and len(value) == 2 and value[0] in ("!", "aug", "cv0", "noise", "angle", "ramp", "pair", "pair-bad", "redraw", "entropy", "hole"):
+    if isinstance(value, tuple) and len(value) == 2 and value[0] in ("!", "aug", "cv0", "noise", "angle", "ramp", "pair", "pair-bad", "redraw", "entropy", "hole", "nimin"):
         tag, value = value
     if tag == "!":
         invalid = True
@@ -175,6 +176,8 @@ def build(kind, name, value):
         kw["threshold_kwargs"] = value
     elif tag == "hole":
         model = "G2hole"
+    elif tag == "nimin":
+        kw["n_initial"], kw["min_samples"] = value
     elif name == "reparameterisations" and isinstance(value, str) and value == "inversion-duplicate":
         kw[name] = {"x0": {"reparameterisation": "inversion", "detect_edges": False, "boundary_inversion": ["upper"], "inversion_type": "duplicate"}}
     elif name == "threshold_kwargs":
@@ -221,50 +224,35 @@ def cases(seed, quick, pairwise):
 
 
 def pairwise_cases(seed):
-    """Greedy pairwise covering array over the valid values of the main options."""
+    """Deviation 2: every pair of valid values of two different options, everything else at its
+    default (explicit pairs rather than a covering array, so a failure is attributable to the pair)."""
     out = []
+    skip = ("flow_proposal_class", "augment_dims", "generate_augment", "marginalise_augment", "model", "stopping_pairs", "run.redraw_samples", "run.compute_initial_posterior", "bootstrap", "train_final_flow", "prior_sampling", "n_initial<min_samples")
     for kind, options in (("std", STD_OPTIONS), ("ins", INS_OPTIONS)):
-        factors = []
+        vals = []
         for name, values in options:
-            vals = []
             for v in values:
                 kw, rkw, model, invalid, label = build(kind, name, v)
-                if kind == "ins" and name == "reparameterisation" and v is None:
-                    continue  # known finding (seed-dependent non-terminating draw): kept out of the combinations
-                if invalid or model or name in ("flow_proposal_class", "augment_dims", "generate_augment", "marginalise_augment", "model", "stopping_pairs", "run.redraw_samples", "run.compute_initial_posterior", "bootstrap", "train_final_flow", "prior_sampling"):
+                if invalid or model or name in skip:
                     continue
-                vals.append((kw, rkw, label))
-            if len(vals) >= 1:
-                factors.append(vals)
-        need = set()
-        for i, j in itertools.combinations(range(len(factors)), 2):
-            for a in range(len(factors[i])):
-                for b in range(len(factors[j])):
-                    need.add((i, a, j, b))
-        rng = np.random.RandomState(12345)
-        rows = []
-        while need and len(rows) < 400:
-            best, best_cov = None, -1
-            for _ in range(12):
-                row = [rng.randint(len(f)) for f in factors]
-                # seed the row with one uncovered pair
-                i, a, j, b = list(need)[rng.randint(len(need))] if len(need) < 50 else next(iter(need))
-                row[i], row[j] = a, b
-                cov = sum(1 for (x, y) in itertools.combinations(range(len(factors)), 2) if (x, row[x], y, row[y]) in need)
-                if cov > best_cov:
-                    best, best_cov = row, cov
-            rows.append(best)
-            for x, y in itertools.combinations(range(len(factors)), 2):
-                need.discard((x, best[x], y, best[y]))
-        covered_all = not need
-        for r, row in enumerate(rows):
-            kw, rkw, labels = {}, {}, []
-            for f, idx in zip(factors, row):
-                k, rk, lab = f[idx]
-                kw = merge(kw, k)
-                rkw.update(rk)
-                labels.append(lab)
-            out.append(dict(kind=kind, model="G2", seed=seed + r % 2, kwargs=kw, run_kwargs=rkw, resume="none", invalid=False, label=f"{kind}:pairwise#{r}", pair_labels=labels, covered_all=covered_all))
+                if kind == "ins" and name == "reparameterisation" and v is None:
+                    continue  # known finding (seed-dependent non-terminating draw)
+                if kind == "ins" and name.startswith("flow_config.") and name != "flow_config.ftype":
+                    continue  # INS validates its flow configuration late (known finding); explored on the standard sampler
+                vals.append((name, kw, rkw, label))
+        r = 0
+        for (n1, k1, r1, l1), (n2, k2, r2, l2) in itertools.combinations(vals, 2):
+            if n1 == n2:
+                continue
+            # two options writing the same keyword (e.g. both set constant_volume_mode) are one deviation
+            if set(k1) & set(k2) - {"flow_config", "training_config"}:
+                continue
+            if "flow_config" in k1 and "flow_config" in k2 and set(k1["flow_config"]) & set(k2["flow_config"]):
+                continue
+            if "training_config" in k1 and "training_config" in k2 and set(k1["training_config"]) & set(k2["training_config"]):
+                continue
+            r += 1
+            out.append(dict(kind=kind, model="G2", seed=seed + r % 2, kwargs=merge(k1, k2), run_kwargs={**r1, **r2}, resume="none", invalid=False, label=f"{kind}:{l1}+{l2}", pair_labels=[l1, l2]))
     return out
 
 
@@ -363,12 +351,10 @@ def run(ctx):
         if res["status"] in ("completed", "rejected-up-front"):
             continue
         label = cfg["label"]
-        if "pairwise#" in label:
-            label = f"{label}:{'+'.join(cfg['pair_labels'])}"[:200]
         ctx.violation(f"{res['status']}@{label}", f"{res['status']}: {res['detail']} (model {cfg['model']}, seed {cfg['seed']})", {"cfg": {k: v for k, v in cfg.items() if k != 'kwargs' or True}})
     ctx.set("outcomes", stats)
     ctx.set("distinct_nontrivial", len({c["label"] for c in cs}))
-    ctx.set("rule", "every value of every option of the alphabet on its own (deviation 1) for both samplers on G2 (quick) / G2 and G3 with two seeds (thorough), plus a greedy pairwise covering array over the valid values (thorough). Each run is classified: rejected before the first live point is drawn / completed and passing the C05 oracle / failing during sampling / failing after sampling / population loop exceeding 1000x its nominal number of latent draws / wall clock 120 s. Distinct/non-trivial: distinct option assignments")
+    ctx.set("rule", "every value of every option of the alphabet on its own (deviation 1) for both samplers on G2 (quick) / G2 and G3 with two seeds (thorough), plus every pair of valid values of two different options (thorough). Each run is classified: rejected before the first live point is drawn / completed and passing the C05 oracle / failing during sampling / failing after sampling / population loop exceeding 1000x its nominal number of latent draws / wall clock 120 s. Distinct/non-trivial: distinct option assignments")
     ctx.set("exhaustive", True)
     ctx.sample({"case": cs[3]["label"], "kwargs": str(cs[3]["kwargs"])})
     ctx.assume(
